@@ -40,7 +40,7 @@ Proof.
   - destruct (h2 Hc) as [E|[E|[E|E]]]; [| | |right; rewrite E; rewrite ?orb_true_r; reflexivity].
     + left. rewrite E. rewrite orb_true_r. reflexivity.
     + right. rewrite E. rewrite orb_true_r. reflexivity.
-    + right. unfold lc_mid_open in E. destruct (lc s) as [|o|o|o]; try discriminate; destruct o; try discriminate;
+    + right. unfold lc_mid_open in E. destruct (lc s) as [| |o|o|o]; try discriminate; destruct o; try discriminate;
         cbn; rewrite ?orb_true_r; reflexivity.
   - left. rewrite (h3 Hc). rewrite orb_true_r. reflexivity.
   - destruct (h7 eq_refl Hu) as [_ [E|E]].
